@@ -594,9 +594,15 @@ func checkWalkFields(c *explore.Ctx, n ast.Node, desc string) {
 	}
 	var want []string
 	rv := reflect.ValueOf(n).Elem()
-	for _, f := range def.Fields {
-		fv := rv.FieldByName(f.Name)
-		if !fv.IsValid() {
+	// the fields come from the compiled struct type, in declaration order (reflect), not from the catalog that
+	// the generators read: a field the catalog loader drops is dropped from the generated Walk as well
+	if len(def.Fields) != rv.NumField() {
+		c.Violation("C19/catalog-fields/"+tn, "shape: "+desc, fmt.Sprintf("the catalog lists %d fields of %s, the struct has %d", len(def.Fields), tn, rv.NumField()))
+	}
+	for i := 0; i < rv.NumField(); i++ {
+		f := rv.Type().Field(i)
+		fv := rv.Field(i)
+		if !f.IsExported() {
 			continue
 		}
 		// node-typed by Go's type system (not by the catalog's own classification, which the generators share)
